@@ -456,7 +456,7 @@ def parse_allow_pairs():
 def new_sites(facts, allow):
     """reachable, live effect sites of forbidden kinds that no allow-list of props/C11.v mentions: [(cfg, name, eff, where)]"""
     forb = {"GlobalNumpyRNG", "PyRandom", "WallClock", "ProcEntropy", "DynamicCode", "HashOrderIter",
-            "ModuleGlobalWrite", "ClassAttrWrite"}
+            "ModuleGlobalWrite", "ClassAttrWrite", "UnseededGenerator", "UnknownRngReceiver", "RandomStateOmitted"}
     out = []
     for cfg, v in facts["configs"].items():
         reach, off = facts["_reach"][cfg], set(v["off"])
